@@ -24,6 +24,7 @@ mod integrity;
 mod keys;
 mod mem;
 mod memdims;
+mod poolcli;
 mod repair;
 mod util;
 mod writer;
@@ -93,6 +94,7 @@ fn main() {
         "c06" => format::c06_cases(&mut rng, &tier, &mut out),
         "c16" => cli::c16_cases(&mut rng, &tier, &mut out),
         "c16-symlink" => cli::c16_symlink_cases(&mut rng, &tier, &mut out),
+        "c16-pool" => poolcli::c16_pool_cases(&mut rng, &tier, &mut out),
         "c02" => repair::c02_cases(&mut rng, &tier, &mut out),
         "c13-hdr" => hdrsrc::c13_hdr_cases(&mut rng, &tier, &mut out),
         "c02-src" => repair::c02_src_cases(&mut rng, &tier, &mut out),
